@@ -31,6 +31,14 @@
 // field, never dropped as harness-internal: the library kept the caller's argument and read it later on one of its own
 // goroutines.  It must be predicted by the third table (lean/Mcp/Gen/ApiArgs.lean + ApiArgs.sites.json,
 // extract/races_apiargs.go; `races.apredict`), whose per-parameter verdicts are the model's (`races.arg`).
+//
+// Locals shared by the goroutines one library function starts: a report both of whose stacks reach — as their first
+// library frame — function literals of the SAME library function, at lines that touch no tracked field, is
+// `races:local:<Type>.<func>:<var>`: the variable is taken from the fourth table (lean/Mcp/Gen/GoClosures.lean +
+// GoClosures.sites.json, extract/races_goclosures.go: the writes of goroutine literals to variables of their function),
+// else from the source line (`v = …`, `v = append(v, …)`, `v[k] = …`, `v++`), else left out.  Checked before the field
+// classification (which would attribute the report to whatever field the enclosing function touches); it must be
+// predicted by the model of that table (`races.lpredict`).
 package main
 
 import (
@@ -57,7 +65,7 @@ func main() {
 		return
 	}
 	hk.Main(&hk.Component{Name: "races",
-		Rule: "scenarios = {streamable server with clients coming and going, GET streams resuming, one streamable client used from many goroutines then terminated/closed in use, first use from several goroutines, legacy SSE server+clients, stdio server on pipes, stdio client with a real child process, streamable and SSE clients with a retry policy whose calls fail transiently and back off together (one client from several goroutines, several clients), a server's registries listed in memory while the oldest tool of a sliding window is unregistered, first use of freshly registered degenerate (struct-literal) descriptors on fresh servers by concurrent listings / getters / calls, callers of the send / request / call / registration APIs that reuse the map, slice or object they passed right after the call returned} x GOMAXPROCS x seed, each in a -race sub-process; a case is a distinct race report (field, package-level variable or API argument, function pair), a table field, a table variable or a table parameter; non-trivial = the field / variable is undisciplined or holds something mutable / the report names a tracked field or variable",
+		Rule: "scenarios = {streamable server with clients coming and going, GET streams resuming, one streamable client used from many goroutines then terminated/closed in use, first use from several goroutines, legacy SSE server+clients, stdio server on pipes, stdio client with a real child process, streamable and SSE clients with a retry policy whose calls fail transiently and back off together (one client from several goroutines, several clients), a server's registries listed in memory while the oldest tool of a sliding window is unregistered, first use of freshly registered degenerate (struct-literal) descriptors on fresh servers by concurrent listings / getters / calls, stdio clients whose server process exited by itself or was killed and has been reaped before Close / double Close / concurrent Close / RestartProcess, Close with a call in flight, callers of the send / request / call / registration APIs that reuse the map, slice or object they passed right after the call returned} x GOMAXPROCS x seed, each in a -race sub-process; a case is a distinct race report (field, package-level variable or API argument, function pair), a table field, a table variable or a table parameter; non-trivial = the field / variable is undisciplined or holds something mutable / the report names a tracked field or variable",
 		Run:  run})
 }
 
@@ -141,6 +149,23 @@ type table struct {
 	// API arguments
 	Args  []tableArg
 	argOf map[string]*tableArg
+	// locals written by goroutine literals of their function
+	Locals  []tableLocal
+	lByLine map[string]*tableLocal
+}
+
+type tableLocal struct {
+	Fn          string `json:"fn"`
+	Var         string `json:"var"`
+	Type        string `json:"type"`
+	Writers     int    `json:"writers"`
+	Disciplined bool   `json:"disciplined"`
+	Why         string `json:"why"`
+	Writes      []struct {
+		Fn   string `json:"fn"`
+		File string `json:"file"`
+		Line int    `json:"line"`
+	} `json:"writes"`
 }
 
 type tableArg struct {
@@ -187,9 +212,11 @@ func loadTable(c *hk.Ctx, root, repo string) (*table, error) {
 	path := filepath.Join(root, "lean", "Mcp", "Gen", "FieldLocks.sites.json")
 	gpath := filepath.Join(root, "lean", "Mcp", "Gen", "Globals.sites.json")
 	apath := filepath.Join(root, "lean", "Mcp", "Gen", "ApiArgs.sites.json")
+	lpath := filepath.Join(root, "lean", "Mcp", "Gen", "GoClosures.sites.json")
 	if exe := filepath.Join(root, "extract", "bin", "extract"); fileExists(exe) {
 		cmd := exec.Command(exe, "-repo", repo, "-out", gen)
-		if out, err := cmd.CombinedOutput(); err == nil && fileExists(filepath.Join(gen, "FieldLocks.sites.json")) && fileExists(filepath.Join(gen, "Globals.sites.json")) && fileExists(filepath.Join(gen, "ApiArgs.sites.json")) {
+		if out, err := cmd.CombinedOutput(); err == nil && fileExists(filepath.Join(gen, "FieldLocks.sites.json")) && fileExists(filepath.Join(gen, "Globals.sites.json")) && fileExists(filepath.Join(gen, "ApiArgs.sites.json")) && fileExists(filepath.Join(gen, "GoClosures.sites.json")) {
+			lpath = filepath.Join(gen, "GoClosures.sites.json")
 			path = filepath.Join(gen, "FieldLocks.sites.json")
 			gpath = filepath.Join(gen, "Globals.sites.json")
 			apath = filepath.Join(gen, "ApiArgs.sites.json")
@@ -251,6 +278,22 @@ func loadTable(c *hk.Ctx, root, repo string) (*table, error) {
 	t.Args, t.argOf = at.Args, map[string]*tableArg{}
 	for i := range t.Args {
 		t.argOf[t.Args[i].API+":"+t.Args[i].Param] = &t.Args[i]
+	}
+	lb, err := os.ReadFile(lpath)
+	if err != nil {
+		return nil, err
+	}
+	var lt struct {
+		Locals []tableLocal `json:"locals"`
+	}
+	if err := json.Unmarshal(lb, &lt); err != nil {
+		return nil, err
+	}
+	t.Locals, t.lByLine = lt.Locals, map[string]*tableLocal{}
+	for i := range t.Locals {
+		for _, w := range t.Locals[i].Writes {
+			t.lByLine[w.File+":"+strconv.Itoa(w.Line)] = &t.Locals[i]
+		}
 	}
 	return t, nil
 }
@@ -437,6 +480,7 @@ type finding struct {
 	Type, Field, F1, F2 string
 	Global              string // "<pkg>.<var>": the report is on (the object behind) a package-level variable
 	Arg                 string // "<Type>.<Method>:<param>": the report is on the caller's memory behind an API argument
+	Local               string // "<Type>.<func>[:<var>]": the report is on a local shared by goroutines that function starts
 	Pointee             bool
 	Mapped              bool
 	External            bool // the racing memory belongs to another package and is not reached through a tracked field
@@ -448,6 +492,9 @@ type finding struct {
 }
 
 func (f *finding) fingerprint() string {
+	if f.Local != "" {
+		return "races:local:" + f.Local
+	}
 	if f.Arg != "" {
 		return "races:arg:" + f.Arg
 	}
@@ -508,7 +555,84 @@ func classifyArg(r report, repo string) (finding, bool) {
 	return finding{}, false
 }
 
+var (
+	closureRe  = regexp.MustCompile(`\.func\d+(\.\d+)*(\(\))?$`)
+	localVarRe = regexp.MustCompile(`^\s*(?:\*)?([A-Za-z_][A-Za-z0-9_]*)\s*(?:\[[^\]]*\]\s*)?(?:=[^=]|\+=|-=|\|=|\+\+|--)`)
+)
+
+// classifyLocal: both stacks enter the library in function literals of the same library function, at lines that touch
+// no tracked field — a variable of that function shared by the goroutines it started.
+func classifyLocal(r report, t *table, repo string) (finding, bool) {
+	var fn [2]string
+	var rel [2]string
+	var line [2]int
+	closures := 0
+	for k := 0; k < 2; k++ {
+		found := false
+		for _, f := range r.acc[k].frames {
+			if !strings.HasPrefix(f.file, repo+"/") {
+				continue
+			}
+			if closureRe.MatchString(f.fn) {
+				closures++
+			}
+			fn[k], rel[k], line[k], found = normFn(f.fn), strings.TrimPrefix(f.file, repo+"/"), f.line, true
+			break
+		}
+		if !found {
+			return finding{}, false
+		}
+	}
+	// the same function on both sides, at least one side in a goroutine literal of it (the other may be the function
+	// itself, looking at the variable before its goroutines are done)
+	if fn[0] != fn[1] || closures == 0 {
+		return finding{}, false
+	}
+	var row *tableLocal
+	for k := 0; k < 2; k++ {
+		key := rel[k] + ":" + strconv.Itoa(line[k])
+		if l := t.lByLine[key]; l != nil {
+			row = l
+		}
+	}
+	if row == nil {
+		for k := 0; k < 2; k++ {
+			if len(t.byLine[rel[k]+":"+strconv.Itoa(line[k])]) > 0 || len(t.gByLine[rel[k]+":"+strconv.Itoa(line[k])]) > 0 {
+				return finding{}, false // the line touches a tracked field / package-level variable: theirs
+			}
+		}
+	}
+	name := fn[0]
+	if i := strings.LastIndex(name, "/"); i >= 0 {
+		name = name[i+1:]
+	}
+	v := ""
+	if row != nil {
+		name, v = row.Fn, row.Var
+	} else {
+		for k := 0; k < 2 && v == ""; k++ {
+			if b, err := os.ReadFile(filepath.Join(repo, rel[k])); err == nil {
+				if ls := strings.Split(string(b), "\n"); line[k] >= 1 && line[k] <= len(ls) {
+					if m := localVarRe.FindStringSubmatch(ls[line[k]-1]); m != nil {
+						v = m[1]
+					}
+				}
+			}
+		}
+	}
+	f := finding{Local: name, F1: fn[0] + "(go)", F2: fn[1] + "(go)", Mapped: true, Pointee: true}
+	if v != "" {
+		f.Local += ":" + v
+	}
+	return f, true
+}
+
 func classify(r report, t *table, repo, harnessDir string) finding {
+	if l, ok := classifyLocal(r, t, repo); ok {
+		f := classifyField(r, t, repo, harnessDir)
+		l.Where, l.Text = f.Where, f.Text
+		return l
+	}
 	if a, ok := classifyArg(r, repo); ok {
 		f := classifyField(r, t, repo, harnessDir)
 		a.Where, a.Text = f.Where, f.Text
@@ -845,6 +969,10 @@ func run(c *hk.Ctx) {
 			"global:"+g.VKind+":"+map[bool]string{true: "disciplined", false: "undisciplined"}[g.Disciplined])
 	}
 
+	for _, l := range t.Locals {
+		c.Emit(map[string]any{"c": "races.local", "fn": l.Fn, "var": l.Var}, map[string]any{"known": true, "disciplined": l.Disciplined}, true,
+			"local:"+map[bool]string{true: "disciplined", false: "undisciplined"}[l.Disciplined])
+	}
 	for _, a := range t.Args {
 		c.Emit(map[string]any{"c": "races.arg", "api": a.API, "param": a.Param},
 			map[string]any{"known": true, "compliant": a.compliant(), "verdict": a.Verdict}, !a.compliant() || a.Copied, "arg:"+a.Verdict)
@@ -953,6 +1081,13 @@ func run(c *hk.Ctx) {
 	var gorder []string
 	for _, fp := range order {
 		f := found[fp]
+		if f.Local != "" {
+			fn, v, _ := strings.Cut(f.Local, ":")
+			c.Emit(map[string]any{"c": "races.lpredict", "fn": fn, "var": v}, map[string]any{"predicted": true}, true, "report:shared-local")
+			groups[fp] = &group{scenarios: f.Scenarios, text: f.Text, pairs: []string{f.F1 + " + " + f.F2}, where: []string{f.Where[0] + " / " + f.Where[1]}}
+			gorder = append(gorder, fp)
+			continue
+		}
 		if f.Arg != "" {
 			api, param, _ := strings.Cut(f.Arg, ":")
 			c.Emit(map[string]any{"c": "races.apredict", "api": api, "param": param}, map[string]any{"predicted": true}, true, "report:api-argument")
@@ -1032,6 +1167,15 @@ func run(c *hk.Ctx) {
 			continue
 		}
 		f := found[gk]
+		if f.Local != "" {
+			fn, v, _ := strings.Cut(f.Local, ":")
+			c.Violate(hk.Violation{Fingerprint: gk,
+				What: fmt.Sprintf("data race on a local variable (%s) of %s, shared by the goroutines that function starts itself: two of them access it without synchronisation (%s; scenarios %v)",
+					map[bool]string{true: v, false: "name not recovered"}[v != ""], fn, strings.Join(f.Where[:], " / "), f.Scenarios),
+				Input: map[string]any{"scenarios": f.Scenarios, "sites": f.Where, "function": fn, "variable": v}, Observed: text,
+				Expected: "no unsynchronised conflicting accesses (Go memory model)"})
+			continue
+		}
 		if f.Arg != "" {
 			verdict := "not in the table"
 			if a := t.argOf[f.Arg]; a != nil {
